@@ -175,6 +175,8 @@ def all_hand_jobs(model, tier):
     jobs += view_jobs(model, 'le')
     pairs = [('can', 'tscf'), ('crf', 'lin')] if tier == 'quick' else [('can', 'tscf'), ('crf', 'lin'), ('rvf', 'cvf'), ('pcm', 'ntscf'), ('vss', 'flexray'), ('most', 'gpc'), ('mjpeg', 'jpeg2000'), ('sensor', 'udp')]
     jobs += history_jobs(model, pairs, 'le')
+    from handjobs3 import vss_jobs
+    jobs += vss_jobs(model, tier, 'le')
     # ---- C14: the same contracts, re-verified for a big-endian host
     be = utils_jobs('be') + can_jobs(model, 'be') + vsspad_jobs(model, 'be')
     be += G.all_generated_jobs(model, 'be', formats=(['tscf', 'can', 'vss'] if tier == 'quick' else None))
